@@ -117,6 +117,27 @@ Section MaxSpread.
     - nia.
   Qed.
 
+  (* against the exact quotient: ret + 1 + (er + offer)*10^-18 > (offer/p)*(1 - s_eff); for amounts below 10^18 base
+     units the slack is below 3 units, for larger amounts it grows with the 18-decimal truncation of 1/p *)
+  Lemma belief_sound_exact m p offer ret spread : 0 < p -> 0 <= offer -> 0 <= ret -> 0 <= s_eff m <= DEC ->
+    assert_max_spread dflt maxs (Some p) m offer ret spread = Ok tt ->
+    let er := expected_return offer p in
+    (ret + 1) * DEC * p + (er + offer) * p > offer * DEC * (DEC - s_eff m) \/ er <= ret.
+  Proof.
+    intros Hp Ho Hr Hs H. cbv zeta.
+    destruct (belief_sound m p offer ret spread Hp Ho Hr H) as [H1|H1]; [|right; exact H1]. left.
+    pose proof (expected_return_bounds offer p Hp Ho) as [B1 B2]. cbv zeta in B1, B2.
+    set (er := expected_return offer p) in *. set (t := DEC - s_eff m) in *. pose proof DEC_pos as HD.
+    assert (Ht : 0 <= t <= DEC) by (unfold t; lia).
+    assert (Her : 0 <= er). { unfold er, expected_return. apply Z.div_pos; [|lia]. apply Z.mul_nonneg_nonneg; [lia|]. apply Z.div_pos; nia. }
+    (* (1) ret*D + er > er*t ; (2) offer*D*D < (er+1)*D*p + offer*p *)
+    assert (A : ret * DEC * (DEC * p) + er * (DEC * p) > er * t * (DEC * p)) by nia.
+    assert (B : er * (DEC * p) * t >= (offer * DEC * DEC - DEC * p - offer * p) * t) by nia.
+    assert (C : (DEC * p + offer * p) * t <= (DEC * p + offer * p) * DEC) by nia.
+    assert (E : DEC * ((ret + 1) * DEC * p + (er + offer) * p) > DEC * (offer * DEC * t)) by nia.
+    nia.
+  Qed.
+
   Lemma belief_complete m p offer ret spread : 0 < p -> 0 <= offer -> 0 <= ret ->
     expected_return offer p < P128 ->
     let er := expected_return offer p in
